@@ -164,6 +164,7 @@ class Log:
                 d["heap"] = int(d["heap"])
                 d["fds"] = [] if d["fds"] == "-" else d["fds"].split(",")
                 d["armed"] = [] if d["armed"] == "-" else d["armed"].split(",")
+                d["allocs"] = int(d.get("allocs", 0))
                 d["peerlist"] = []
                 d["elems"] = []
                 d["step"] = step
